@@ -16,33 +16,58 @@ class FakeUnit:
         self.rules = collections.Counter()
 
 
+def _unname_result(l):
+    """`-> (r: T)` -> `-> T` with balanced parentheses"""
+    m = re.search(r'-> \((\w+): ', l)
+    if not m:
+        return l
+    k = m.end()
+    depth = 1
+    e = k
+    while e < len(l) and depth > 0:
+        if l[e] == '(':
+            depth += 1
+        elif l[e] == ')':
+            depth -= 1
+        e += 1
+    return l[:m.start()] + '-> ' + l[k:e - 1] + l[e:]
+
+
 def strip_verus(text):
-    """remove requires/ensures/invariant/decreases clauses, proof blocks, ghost lets and asserts from a simple helper.
-    Convention of prelude/*.rs relied upon: a clause block ends at the first following line that STARTS with `{`."""
+    """remove requires/ensures/invariant/decreases clauses, spec fns, proof blocks, ghost lets/params and asserts from a
+    simple helper.  Convention of prelude/*.rs relied upon: a clause block ends at the first following line that STARTS
+    with `{`; a spec fn ends at the first following line that is exactly `}`."""
     out = []
     skip = False
+    skip_spec = False
     for l in text.split('\n'):
         s = l.strip()
         if s.startswith('//'):
+            continue
+        if skip_spec:
+            if l.rstrip() == '}':
+                skip_spec = False
             continue
         if skip:
             if s.startswith('{'):
                 skip = False
                 out.append(l)
             continue
+        if re.match(r'^pub (open|closed) spec fn', s):
+            if not s.endswith('}'):
+                skip_spec = True
+            continue
         if re.match(r'^(requires|ensures|invariant|decreases)\b', s):
-            if s.endswith('{') and not s.startswith('ensures') and False:
-                pass
             skip = True
             continue
-        if s.startswith('assert(') or s.startswith('let ghost') or s.startswith('proof {') or re.match(r'^pub (open|closed) spec fn', s):
+        if s.startswith('assert(') or s.startswith('let ghost') or s.startswith('proof {'):
             continue
+        l = re.sub(r', Ghost\(\w+\): Ghost<spec_fn\(\w+\) -> bool>', '', l)
         # one-line fn with inline ensures:  fn f(..) -> (r: T) ensures .. { body }
-        m = re.match(r'^(.*?\))\s*-> \((\w+): ([^)]+)\)\s*(?:requires|ensures)[^{]*(\{.*)$', l)
+        m = re.match(r'^(.*?)\s*(?:requires|ensures) [^{]*(\{.*)$', l) if re.search(r'\)\s*(requires|ensures) ', l) else None
         if m:
-            l = '%s -> %s %s' % (m.group(1), m.group(3), m.group(4))
-        l = re.sub(r'-> \((\w+): ([^)]+)\)', r'-> \2', l)
-        out.append(l)
+            l = m.group(1) + ' ' + m.group(2)
+        out.append(_unname_result(l))
     return '\n'.join(out)
 
 
